@@ -175,12 +175,18 @@ type zzMSender struct {
 	headers int
 	ends    int
 	last    api.HeaderMap // the headers of the last response written to the client
+	onHeaders func()      // environment hook: something happens while response headers are being written
 }
 
 func (s *zzMSender) GetStream() types.Stream { return s.st }
 func (s *zzMSender) AppendHeaders(ctx context.Context, h api.HeaderMap, end bool) error {
 	s.headers++
 	s.last = h
+	if s.onHeaders != nil && !end {
+		f := s.onHeaders
+		s.onHeaders = nil
+		f()
+	}
 	if end {
 		s.ends++
 	}
@@ -697,5 +703,45 @@ func VerifC14_TerminateRace() {
 			verif.Assert(fromUpstream, "the upstream's response was received first, but the client was sent something else")
 		}
 	}
+	verif.Cover("end")
+}
+
+// VerifC03_ResetAfterResponseStarted: the upstream answers with headers and a
+// body; while the response headers are being written to the client the
+// upstream stream is reset (any reason), on a route that would retry that
+// reason. A response that has started is never retried: the client never
+// gets a second set of response headers, the upstream never gets the request
+// again, and the request still ends.
+func VerifC03_ResetAfterResponseStarted() {
+	verif.Switches(0)
+	retryOn := verif.Choose("retry_on", 2) == 1
+	ds, sender, pool, _, ctx := zzMachine(1, retryOn)
+	pool.scripted = true
+	done := false
+	go func() {
+		ds.OnReceive(ctx, protocol.CommonHeader{}, nil, nil)
+		done = true
+	}()
+	verif.Settle()
+	ur := ds.upstreamRequest
+	verif.Assume(!done && ur != nil && ur.requestSender != nil)
+	callsBefore := pool.calls
+	reason := zzUpReasons[verif.Choose("reason", len(zzUpReasons))]
+	sender.onHeaders = func() {
+		// what another goroutine (the upstream connection's read loop) does at that moment
+		ur.OnResetStream(reason)
+	}
+	ur.OnReceive(ctx, protocol.CommonHeader{"status": "200"}, buffer.NewIoBufferBytes([]byte("body")), nil)
+	verif.Settle()
+	for k := 0; k < 3 && !done; k++ {
+		// a retried attempt (there must be none) would be answered, so that a second response could show
+		if u2 := ds.upstreamRequest; u2 != nil && u2.requestSender != nil && pool.calls > callsBefore {
+			u2.OnReceive(ctx, protocol.CommonHeader{"status": "200"}, nil, nil)
+		}
+		verif.Settle()
+	}
+	verif.Assert(sender.headers <= 1, "the client got two sets of response headers for one request")
+	verif.Assert(pool.calls == callsBefore, "the request was sent upstream again after its response had started")
+	verif.Assert(sender.headers == 1, "the response that had started did not reach the client")
 	verif.Cover("end")
 }
